@@ -26,6 +26,17 @@ namespace SymEngine
 
 */
 
+// Checked conversion of an operand of a logical operator or of an argument
+// of a boolean function: anything that is not a Boolean is a parse error.
+inline RCP<const Boolean> boolean_operand(const RCP<const Basic> &b)
+{
+    if (not is_a_Boolean(*b)) {
+        throw ParseError(
+            "Boolean operator or function received non-boolean arguments");
+    }
+    return rcp_static_cast<const Boolean>(b);
+}
+
 class Tokenizer;
 
 class Parser
